@@ -751,7 +751,7 @@ def finding_key(case, res):
 
 MANIFEST = {
     "text": ("Lean theorems, one group per algorithm, each an invariant of the recursion of the executable model "
-             "(31 theorems over Props/C06Id, C06Transport, C06Cf, summarised in Props/C06): "
+             "(42 theorems: Props/C06Id, C06Transport, C06Cf, and the summary Props/C06): "
              "ID / IDC — id_vocab, identifyOutcomes_vocab, idc_vocab: every returned estimand contains only plain "
              "observational P(...) terms and sums over nodes of the user's graph: no population tag, no subscripts, no "
              "starred / counterfactual variables, no Q-factors; "
